@@ -425,6 +425,39 @@ var exprHosts = []string{
 	"\tuse(wrap(wrap(%s)))\n",
 	"\tuse(-%s)\n",
 	"\tuse(%s, %s)\n",
+	"\tuse(%s.Other())\n",
+	"\tuse(%s.Field.Sub, 1)\n",
+	"\t_ = %s[0]\n",
+	"\tuse(%s + 1)\n",
+	"\t%s.Run(2).Done()\n",
+	"\tuse(%s.Get(2).String())\n",
+}
+
+// postfixHost reports whether the host applies a postfix operator to the planted text.
+func postfixHost(h string) bool {
+	i := strings.Index(h, "%s")
+	return i >= 0 && i+2 < len(h) && (h[i+2] == '.' || h[i+2] == '[')
+}
+
+// primaryLooking reports whether text can take a postfix operator as it stands.
+func primaryLooking(text string) bool {
+	if text == "" || !(text[0] == '_' || text[0] >= 'a' && text[0] <= 'z' || text[0] >= 'A' && text[0] <= 'Z') {
+		return false
+	}
+	depth := 0
+	for i := 0; i < len(text); i++ {
+		switch text[i] {
+		case '(', '[', '{':
+			depth++
+		case ')', ']', '}':
+			depth--
+		case ' ', '+', '-', '*', '/', '<', '>', '=', '!', '&', '|', '^', '%', ',', '"', '`', '\'':
+			if depth == 0 {
+				return false
+			}
+		}
+	}
+	return depth == 0
 }
 
 // File generates a parseable file with the plants inserted. It panics if it cannot produce
@@ -468,6 +501,13 @@ func (g *G) file(o FileOpts) string {
 		switch p.Kind {
 		case "expr":
 			h := g.pick(exprHosts)
+			if postfixHost(h) && !primaryLooking(p.Text) {
+				if g.NoParen {
+					h = exprHosts[0]
+				} else {
+					p.Text = "(" + p.Text + ")"
+				}
+			}
 			n := strings.Count(h, "%s")
 			args := make([]any, n)
 			for i := range args {
